@@ -109,9 +109,9 @@ Definition ex_ops : list op :=
    OpAuthorize (mkAReq 1 (mkParams 38 "" "" "code" "openid email" "outer" "" PkEmpty "" 0 "" 0 "" []) true PolInProgress);
    OpCallback (mkCbReq 69 PolInProgress);
    OpCallback (mkCbReq 69 (PolSuccess "alice" "openid email" []));
-   OpToken GAuthorizationCode (mkTReq (mkCred 1 true) (mkBind None 0) "" 132 "https://c1.example/cb" 0 PkEmpty 0 HgOk BaApprove []);
-   OpToken GRefreshToken (mkTReq (mkCred 1 true) (mkBind None 0) "openid" 0 "" 163 PkEmpty 0 HgDeny BaApprove []);
-   OpToken GRefreshToken (mkTReq (mkCred 1 true) (mkBind None 0) "openid" 0 "" 163 PkEmpty 0 HgOk BaApprove []);
+   OpToken GAuthorizationCode (mkTReq (mkCred 1 true) (mkBind None 0) "" 132 "https://c1.example/cb" 0 PkEmpty 0 HgOk BaApprove [] AsNone);
+   OpToken GRefreshToken (mkTReq (mkCred 1 true) (mkBind None 0) "openid" 0 "" 163 PkEmpty 0 HgDeny BaApprove [] AsNone);
+   OpToken GRefreshToken (mkTReq (mkCred 1 true) (mkBind None 0) "openid" 0 "" 163 PkEmpty 0 HgOk BaApprove [] AsNone);
    OpIntrospect (mkQReq (mkCred 1 true) (PExact 225) true)].
 Definition ex_world : option world :=
   match build POpenID ex_opts with Some cfg => Some (mkWorld cfg []) | None => None end.
@@ -120,7 +120,7 @@ Example history_with_touches :
   match ex_world with
   | Some w => run_alias_trace w [ex_client] ex_ops = run w [ex_client] ex_ops /\
               map is_tokens (run w [ex_client] ex_ops) = [false; false; false; false; true; false; true; false] /\
-              ~ no_touch (refresh_grant w 6 0%Z (mkTReq (mkCred 1 true) (mkBind None 0) "openid" 0 "" 163 PkEmpty 0 HgOk BaApprove []))
+              ~ no_touch (refresh_grant w 6 0%Z (mkTReq (mkCred 1 true) (mkBind None 0) "openid" 0 "" 163 PkEmpty 0 HgOk BaApprove [] AsNone))
   | None => False
   end.
 Proof. vm_compute. repeat split. intros H. exact (H (RClient ex_client) (RGSess c18_g0)). Qed.
